@@ -99,6 +99,9 @@ def base_out(info, case):
     h[f"flat_choices={len(meta.get('flat') or [])}"] = 1
     h[f"lower_bound={bool(meta.get('lower_bound'))}"] = 1
     h[f"int_init={bool(case.get('int_init'))}"] = 1
+    from pipeline import wf_hist
+
+    wf_hist(mj, h)
     return out
 
 
